@@ -7,7 +7,7 @@ package engines
 //
 // Every scenario runs in a CHILD process (re-exec of os.Args[0]) with
 // GORACE="halt_on_error=1 exitcode=66 log_path=...": a race report ends the child with exit
-// code 66 and is an oracle failure `data-race:<site>`.  Close is guarded by a 60 s timeout
+// code 66 and is an oracle failure `data-race:<site>`.  Close is guarded by a 90 s timeout
 // (`close-hang`, goroutine dump attached).  After Close the index is re-opened and the
 // content is compared with the acknowledged batches.  Scenarios of kind "trace" record the
 // control-point events of the persister / merger / closer goroutines; the recorded sequence
@@ -99,10 +99,11 @@ func runConc(o Opts) error {
 	if len(o.Args) >= 2 && o.Args[0] == "child" {
 		return concChild(o.Args[1])
 	}
-	w := cq.New(o.Out, "From Bluge Require Import Conc.Skeleton Conc.ConcCorr.", "case", 2)
+	w := cq.New(o.Out, "From Bluge Require Import Conc.Skeleton Conc.ConcCorr.", "case", 1)
+	w.Samples = []interface{}{} // never `null` in stats.json, also when every scenario fails its oracle
 	defer w.Close()
 	rng := rand.New(rand.NewSource(o.Seed))
-	nRace, nTrace, nPip := 6, 5, 3
+	nRace, nTrace, nPip := 6, 5, 4
 	if o.Thorough() {
 		nRace, nTrace, nPip = 100, 50, 50
 	}
@@ -160,6 +161,7 @@ func runConc(o Opts) error {
 		sc.Unsafe, sc.Dir, sc.MinMemMrg = true, "fs", 1000
 		sc.NapMS, sc.NapUnder = 0, 1000
 		sc.SlowPersMS = 2 + rng.Intn(4)
+		sc.Batchers, sc.Batches, sc.Searchers = 2+rng.Intn(3), 2+rng.Intn(3), 1
 		scs = append(scs, sc)
 	}
 
@@ -204,7 +206,7 @@ func runConc(o Opts) error {
 			if res != nil && res.CloseHang {
 				input["goroutines"] = concTrim(res.Dump, 8000)
 				w.OracleEval(1)
-				w.OracleFail("close-hang", "Writer.Close did not return within 60s although every caller had returned", input)
+				w.OracleFail("close-hang", "Writer.Close did not return within 90s although every caller had returned", input)
 				continue
 			}
 			w.OracleFail("crash:"+concCrashKey(out.stderr), "the scenario process ended abnormally", input)
@@ -296,7 +298,7 @@ func concRunChild(sc concScenario) *concChildOutcome {
 				out.exit = -1
 			}
 		}
-	case <-time.After(240 * time.Second):
+	case <-time.After(600 * time.Second):
 		out.timedOut = true
 		cmd.Process.Signal(syscall.SIGQUIT) // goroutine dump on stderr
 		select {
@@ -387,18 +389,20 @@ func concCrashKey(stderr string) string {
 // ---------------------------------------------------------------- child: instrumentation
 
 type concEnv struct {
-	sc       concScenario
-	record   bool
-	mu       sync.Mutex // only used by scenarios that record (adds happens-before edges)
-	events   []string
-	rngI     uint64 // perturbation state owned by the introducer goroutine
-	rngP     uint64 // ... by the persister goroutine
-	rngM     uint64 // ... by the merger goroutine
-	armed    int32  // pipclose: fire Close at the next Count() inside introducePersist
-	closeNow chan struct{}
-	merges   int64
-	persists int64
-	chill    atomic.Value // *index.Writer seen through EventCallback
+	sc           concScenario
+	record       bool
+	mu           sync.Mutex // only used by scenarios that record (adds happens-before edges)
+	events       []string
+	rngI         uint64 // perturbation state owned by the introducer goroutine
+	rngP         uint64 // ... by the persister goroutine
+	rngM         uint64 // ... by the merger goroutine
+	armed        int32  // pipclose: fire Close at the next Count() inside introducePersist
+	closeNow     chan struct{}
+	closeStarted chan struct{} // closed by the CloseStart event
+	pipFired     int32
+	merges       int64
+	persists     int64
+	chill        atomic.Value // *index.Writer seen through EventCallback
 }
 
 // role of the calling goroutine, from its stack
@@ -530,6 +534,14 @@ func (d *concDir) List(kind string) ([]uint64, error) {
 func (d *concDir) Load(kind string, id uint64) (*segment.Data, io.Closer, error) {
 	role, _ := concRole()
 	d.e.perturb(role)
+	if role == "P" && kind == index.ItemKindSegment && atomic.CompareAndSwapInt32(&d.e.armed, 1, 2) {
+		// pipclose: the persister is loading the segments it is about to hand to the introducer
+		// (prepareIntroducePersist); let Close begin a few milliseconds from now
+		select {
+		case d.e.closeNow <- struct{}{}:
+		default:
+		}
+	}
 	data, c, err := d.inner.Load(kind, id)
 	if err == nil && kind == index.ItemKindSegment {
 		d.e.rec(role, "load-seg")
@@ -593,11 +605,15 @@ type concSeg struct {
 
 func (s *concSeg) Count() uint64 {
 	role, inPip := concRole()
-	if role == "I" && inPip && atomic.CompareAndSwapInt32(&s.e.armed, 1, 2) {
-		// targeted schedule: the introducer is inside introducePersist (it has accepted the
-		// persister's request); let Close run now while the introducer is held here
-		s.e.closeNow <- struct{}{}
-		time.Sleep(4 * time.Millisecond)
+	if role == "I" && inPip && atomic.LoadInt32(&s.e.armed) == 2 {
+		// targeted schedule: the persister has triggered Close (see concDir.Load) and the
+		// introducer is inside introducePersist; hold it until Close has begun.  Nothing is
+		// signalled FROM the introducer, so its map accesses stay unordered with the persister's.
+		select {
+		case <-s.e.closeStarted:
+		case <-time.After(100 * time.Millisecond):
+		}
+		time.Sleep(3 * time.Millisecond)
 	}
 	if role != "U" {
 		s.e.perturb(role)
@@ -690,13 +706,17 @@ func concChild(scFile string) error {
 			defer pprof.StopCPUProfile()
 		}
 	}
+	e := &concEnv{sc: sc, record: sc.Kind == "trace", rngI: uint64(sc.Seed) ^ 1, rngP: uint64(sc.Seed) ^ 2, rngM: uint64(sc.Seed) ^ 3,
+		closeNow: make(chan struct{}, 1), closeStarted: make(chan struct{})}
+	var problemsMu sync.Mutex
 	writeRes := func() {
+		problemsMu.Lock()
+		defer problemsMu.Unlock()
 		res.WallMS = time.Since(t0).Milliseconds()
+		res.PipFired = atomic.LoadInt32(&e.pipFired) == 1
 		b, _ := json.Marshal(res)
 		os.WriteFile(filepath.Join(sc.Path, "result.json"), b, 0o644)
 	}
-	e := &concEnv{sc: sc, record: sc.Kind == "trace", rngI: uint64(sc.Seed) ^ 1, rngP: uint64(sc.Seed) ^ 2, rngM: uint64(sc.Seed) ^ 3,
-		closeNow: make(chan struct{}, 1)}
 	rng := rand.New(rand.NewSource(sc.Seed))
 	// other engines of this harness install a global trace hook that runs under the writer's
 	// root lock; this engine must observe the uninstrumented writer
@@ -745,6 +765,7 @@ func concChild(scFile string) error {
 				e.rec(role, "ev-merger-progress")
 			case index.EventKindCloseStart:
 				e.rec(role, "ev-close-start")
+				close(e.closeStarted)
 			case index.EventKindClose:
 				e.rec(role, "ev-close")
 			}
@@ -793,7 +814,6 @@ func concChild(scFile string) error {
 			AddField(bluge.NewKeywordField("v", id).StoreValue())
 	}
 
-	var problemsMu sync.Mutex
 	problem := func(s string) {
 		problemsMu.Lock()
 		if len(res.Problems) < 20 {
@@ -866,8 +886,8 @@ func concChild(scFile string) error {
 	}
 
 	// ---- phase 1: concurrent API use
-	var callers sync.WaitGroup  // goroutines calling the Writer API (Batch, Reader, Stats)
-	var readers sync.WaitGroup  // goroutines that only search on readers they already hold
+	var callers sync.WaitGroup // goroutines calling the Writer API (Batch, Reader, Stats)
+	var readers sync.WaitGroup // goroutines that only search on readers they already hold
 	stopSearch := make(chan struct{})
 	for g := 0; g < sc.Batchers; g++ {
 		callers.Add(1)
@@ -1007,7 +1027,8 @@ func concChild(scFile string) error {
 		go func() {
 			select {
 			case <-e.closeNow:
-				res.PipFired = true
+				atomic.StoreInt32(&e.pipFired, 1)
+				time.Sleep(time.Duration(2000+rng.Intn(5000)) * time.Microsecond)
 			case <-time.After(300 * time.Millisecond): // the persister had nothing left to do
 			}
 			closeDone <- writer.Close()
@@ -1025,7 +1046,7 @@ func concChild(scFile string) error {
 		if err != nil {
 			problem("api-error: Close: " + err.Error())
 		}
-	case <-time.After(60 * time.Second):
+	case <-time.After(90 * time.Second):
 		res.CloseHang = true
 		var sb strings.Builder
 		pprof.Lookup("goroutine").WriteTo(&sb, 2)
